@@ -533,8 +533,8 @@ func (sf *StepFacts) pendingStage(stage string) bool {
 }
 
 func evalOp(op string, a, b any) Res {
-	if isWild(a) || isWild(b) {
-		return Res{V: Wild{}}
+	if isWild(a) || isWild(b) || isChoice(a) || isChoice(b) {
+		return Res{V: Wild{}} // a set of admissible operands: the result is not enumerated
 	}
 	switch x := a.(type) {
 	case int64:
@@ -606,7 +606,7 @@ func evalOp(op string, a, b any) Res {
 
 func evalCall(fn string, args []any) Res {
 	for _, a := range args {
-		if isWild(a) {
+		if isWild(a) || isChoice(a) {
 			return Res{V: Wild{}}
 		}
 	}
